@@ -166,8 +166,11 @@ def run(ctx) -> None:
                 e = e.value
             toml_sections.add(".".join(reversed(path)))
     dp = prog.function("config._parse_current_version_default_pattern")
-    hdr = {n.comparators[0].value.strip("[]") for n in ast.walk(dp.node) if isinstance(n, ast.Compare) and isinstance(n.ops[0], ast.Eq) and isinstance(n.comparators[0], ast.Constant)
-           and isinstance(n.comparators[0].value, str) and n.comparators[0].value.startswith("[") and n.comparators[0].value.endswith("]") and len(n.comparators[0].value) > 2}
+    from checks.c03 import header_literals_of_test
+    hdr = set()
+    for n in ast.walk(dp.node):
+        if isinstance(n, ast.Compare):
+            hdr |= {h_.strip("[]") for h_ in header_literals_of_test(prog, dp, n) if h_.endswith("]") and len(h_) > 2}
     ctx.check("R3", ini_sections == {"bumpver", "pycalver"}, "INI reader accepts [bumpver] and [pycalver]", "config._parse_cfg: accepted sections changed", f"{sorted(ini_sections)}", loc=readers["cfg"].loc())
     ctx.check("R3", ini_fp == {s + ":file_patterns" for s in ini_sections}, "INI file_patterns sections mirror the main sections", "config._parse_cfg_file_patterns: sections do not mirror the main sections", f"{sorted(ini_fp)}", loc=fp.loc())
     ctx.check("R3", toml_sections == {"tool.bumpver", "bumpver", "pycalver"}, "TOML reader accepts [tool.bumpver], [bumpver], [pycalver]", "config._parse_toml: accepted sections changed", f"{sorted(toml_sections)}", loc=readers["toml"].loc())
@@ -202,7 +205,11 @@ def run(ctx) -> None:
         ok = len(sets) == 1 and f"{opt} is None" in pc.atoms and pc.reach(sets[0].id).project([f"{opt} is None"]).equiv(BF.var(f"{opt} is None"))
         ctx.check("R4", ok, f"_parse_config: {opt} None -> False", f"config._parse_config: a missing `{opt}` is not normalised to False", "", loc=pcf.loc())
     ts = shapes.single_def(pcf, "tag_scope")
-    ctx.check("R4", ts is not None and unparse(ts).startswith("TagScope(_parse_cfg_strings(raw_cfg, 'tag_scope'"), "_parse_config: tag_scope = TagScope(<configured string or default>)",
+    ts_in = shapes.inline(pcf, ts, prog, consts=False) if ts is not None else None
+    ok_ts = isinstance(ts_in, ast.Call) and unparse(ts_in.func).endswith("TagScope") and len(ts_in.args) == 1 and \
+        any(isinstance(c_, ast.Constant) and c_.value == "tag_scope" for c_ in ast.walk(ts_in.args[0])) and \
+        any(isinstance(x_, ast.Name) and x_.id == pcf.params[0] for x_ in ast.walk(ts_in.args[0]))
+    ctx.check("R4", ok_ts, "_parse_config: tag_scope = TagScope(<configured string or default>)",
               "config._parse_config: tag_scope is not normalised through TagScope", unparse(ts) if ts is not None else "", loc=pcf.loc())
     ctor = [c for c in ast.walk(pcf.node) if isinstance(c, ast.Call) and unparse(c.func) == "Config"]
     ctx.require(len(ctor) == 1, "_parse_config: Config constructor not found")
